@@ -33,10 +33,13 @@ def run(tier, replay):
         trace = S.serve(worlds, cases, sc, obs="full", stats=True)
         verdict = vlib.Verdict("C03")
         tv = S.judge("C03", "Trace_Static_c03", trace, verdict, signature, heap="12g")
+        trace3 = S.serve(worlds, cases, sc, obs="full", stats=False, tag="w", wire=True)
+        tv3 = S.judge("C03", "Trace_Static_c03", trace3, verdict, signature, heap="12g")
         n1 = S.count_events(trace)
+        n3 = S.count_events(trace3)
         ev["coverage"] = {
             "states": mc.distinct + gen.distinct, "transitions": mc.generated + gen.generated,
-            "traces_validated_against_impl": n1["Serve"], "spec_cases_replayed": ncases,
+            "traces_validated_against_impl": n1["Serve"] + n3["Serve"], "wire_requests": n3["Serve"], "spec_cases_replayed": ncases,
             "samples": S.sample_events(trace, 3),
             "rule": "Gen_Static(c03): file lengths {0,1,2,3,10,8191,8192,8193,70000} x every single spec (first-last, first-, -suffix, junk) with offsets "
                     "from {0,1,L-2,L-1,L,L+1,u64max,>u64max,junk} + all pairs%s over a reduced spec set + whitespace / wrong unit / empty list; "
